@@ -14,6 +14,7 @@ import (
 	"runtime/debug"
 	"strconv"
 	"sync"
+	"sync/atomic"
 	"time"
 
 	"github.com/DataDog/datadog-go/v5/statsd"
@@ -47,6 +48,9 @@ type VerifC11Case struct {
 	Jobs    []VerifC11Job `json:"jobs"`
 	Workers int           `json:"workers"`
 	Iters   int           `json:"iters"`
+	// barrier: Reqs[i] = requester i asks for a fullsync ticket; all requesters of a round use the SAME job id
+	Reqs   []bool `json:"reqs"`
+	Rounds int    `json:"rounds"`
 }
 
 type VerifC11Obs struct {
@@ -61,6 +65,8 @@ type VerifC11Obs struct {
 	FinalF   int     `json:"finalF"`
 	FinalI   int     `json:"finalI"`
 	Running  int     `json:"running"`
+	Hist     []int   `json:"hist"`    // barrier: Hist[g] = rounds in which g requesters held a ticket for the id at the same time
+	BadAcct  int     `json:"badAcct"` // barrier: rounds after which pools / running set were not back at their initial values
 }
 
 func verifC11Cfg(dir string) *conf.Config {
@@ -382,5 +388,91 @@ func (env *VerifC11Env) RunRaffle(c VerifC11Case) (obs VerifC11Obs) {
 	if obs.Log == nil {
 		obs.Log = [][]int{}
 	}
+	return
+}
+
+// RunBarrier: in every round all requesters are released together (spinning on an atomic gate) and call the real
+// raffle.borrowTicket for the SAME job id (different job objects: cron / event / fullsync flavours); nobody returns
+// a ticket before all have answered, so the number of tickets granted in a round is the number of simultaneously
+// active runs of that id.  Then all tickets are returned and the pool accounting is looked at.
+func (env *VerifC11Env) RunBarrier(c VerifC11Case) (obs VerifC11Obs) {
+	logger := zap.NewNop().Sugar()
+	sd := &statsd.NoOpClient{}
+	r := NewRaffle(c.CapF, c.CapI, logger, sd)
+	runner := &Runner{logger: logger, store: env.store, statsdClient: sd, raffle: r, eventBus: server.NoOpBus()}
+	g := len(c.Reqs)
+	const nids = 4
+	jobs := make([][]*job, nids)
+	for k := 0; k < nids; k++ {
+		id := "b" + strconv.Itoa(k)
+		jobs[k] = make([]*job, g)
+		for i, full := range c.Reqs {
+			jobs[k][i] = &job{id: id, title: id, runner: runner, isEvent: i%2 == 1,
+				pipeline: &verifC11Pipeline{spc: PipelineSpec{source: &jobSource.SampleSource{}, sink: &devNullSink{}}, full: full, idx: k}}
+		}
+	}
+	tickets := make([]*ticket, g)
+	var gate, done int64
+	var stop int32
+	var wg sync.WaitGroup
+	for i := 0; i < g; i++ {
+		wg.Add(1)
+		go func(i int) {
+			defer wg.Done()
+			next := int64(1)
+			for {
+				for spins := 0; atomic.LoadInt64(&gate) < next; spins++ {
+					if atomic.LoadInt32(&stop) != 0 {
+						return
+					}
+					if spins&1023 == 1023 {
+						runtime.Gosched()
+					}
+				}
+				tickets[i] = r.borrowTicket(jobs[int(next)%nids][i])
+				atomic.AddInt64(&done, 1)
+				next++
+			}
+		}(i)
+	}
+	hist := make([]int, g+1)
+	for round := int64(1); round <= int64(c.Rounds); round++ {
+		atomic.StoreInt64(&done, 0)
+		atomic.StoreInt64(&gate, round)
+		for spins := 0; atomic.LoadInt64(&done) < int64(g); spins++ {
+			if spins&1023 == 1023 {
+				runtime.Gosched()
+			}
+		}
+		granted := 0
+		for i, t := range tickets {
+			if t != nil {
+				granted++
+				r.returnTicket(t)
+				tickets[i] = nil
+			}
+		}
+		hist[granted]++
+		r.runningMu.Lock()
+		if r.ticketsFull != c.CapF || r.ticketsIncr != c.CapI || len(r.runningJobs) != 0 {
+			obs.BadAcct++
+			// put the raffle back so that one bad round is not counted again and again
+			r.ticketsFull, r.ticketsIncr = c.CapF, c.CapI
+			for k := range r.runningJobs {
+				delete(r.runningJobs, k)
+			}
+		}
+		r.runningMu.Unlock()
+	}
+	atomic.StoreInt32(&stop, 1)
+	wg.Wait()
+	for len(hist) > 1 && hist[len(hist)-1] == 0 {
+		hist = hist[:len(hist)-1]
+	}
+	obs.Outcome = "ok"
+	obs.Live = "alive"
+	obs.Hist = hist
+	obs.Log = [][]int{}
+	obs.FinalF, obs.FinalI, obs.Running = r.ticketsFull, r.ticketsIncr, len(r.runningJobs)
 	return
 }
